@@ -20,6 +20,12 @@ partial def loop (h : IO.FS.Stream) (s : Comp) (sros : List (Nat × List Nat)) :
   match f with
   | ["reset"] => IO.println "ok"; loop h (fresh []) []
   | ["sro", i, l] => let sros := sros ++ [(i.toNat!, nums l)]; IO.println "ok"; loop h (fresh sros) sros
+  | ["regU", _, _, "#b", _] => IO.println "ValueError []"; loop h s sros      -- a name that is not a string: refused, nothing written
+  | ["regU", _, _, "#n", _] => IO.println "ValueError []"; loop h s sros
+  | ["regU", _, _, "#t", _] => IO.println "ValueError []"; loop h s sros
+  | ["regA", _, _, _, "#b"] => IO.println "ValueError []"; loop h s sros
+  | ["regA", _, _, _, "#n"] => IO.println "ValueError []"; loop h s sros
+  | ["regA", _, _, _, "#t"] => IO.println "ValueError []"; loop h s sros
   | ["regU", c, p, name, info] => let r := registerUtility s (comp c).get! p.toNat! (nm name) info; IO.println (out r); loop h r.1 sros
   | ["unregU", c, p, name] => let r := unregisterUtility s (comp c) p.toNat! name; IO.println (out r); loop h r.1 sros
   | ["regA", c, req, p, name] => let r := registerAdapter s (comp c).get! (nums req) p.toNat! (nm name) "i"; IO.println (out r); loop h r.1 sros
